@@ -111,6 +111,9 @@ static void run(Case const& c, std::ostream& o) {
 		} else if (k == "Z") {
 			NormalizeComponentsZCA t(num(c.args[0])); LinearModel<> mod; if (g_reuse) t.train(mod, prevData(d)); t.train(mod, data);
 			o << "OK rows=" << mod.matrix().size1(); pv(o, "mat", mat(mod.matrix())); pv(o, "off", vec(mod.offset())); pv(o, "out", outputs(mod, data));
+			// the answer of the eigen-decomposition oracle: train() decomposes a local covariance matrix; the same statements here
+			{ RealVector mean_; RealMatrix covariance_; meanvar(data, mean_, covariance_); blas::symm_eigenvalue_decomposition<RealMatrix> eigen_(covariance_);
+			  o << " on=" << d; pv(o, "oD", vec(eigen_.D())); pv(o, "oU", mat(eigen_.Q())); }
 		} else {
 			bool wh = c.args[0] == "1"; std::size_t m = std::stoul(c.args[1]);
 			PCA pca(g_reuse ? prevData(d) : data, wh); if (g_reuse) pca.setData(data); LinearModel<> enc, dec; pca.encoder(enc, m); pca.decoder(dec, m);
